@@ -247,6 +247,26 @@ def run(pid, tier, repo="/repo", out_evidence=True, quiet=False):
         with multiprocessing.get_context("fork").Pool(nproc) as pool:
             for r in pool.imap_unordered(solve.solve_text, todo, chunksize=1):
                 results[r["name"]] = r
+    # An obligation the solvers could not decide within the quick budget while 16 workers compete for the cores is
+    # re-tried alone with a long budget before it is reported: a timeout under load is not a property violation.
+    undecided = []
+    for j in jobs:
+        r_ = j.get("result") or results.get(j.get("name"))
+        if r_ is not None and r_.get("status") not in ("sat", "unsat") and j.get("kind") != "cover":
+            undecided.append(j)
+    if undecided and prog is not None:
+        for j in undecided[:40]:
+            attach_verifier(prog, props, j)
+            v_, ob_ = j.get("verifier"), j.get("ob")
+            if v_ is None or ob_ is None:
+                continue
+            from .verify import build_vc as _bvc
+            hyps_, pc_, goal_ = _bvc(v_, ob_)
+            text_, fb_ = solve.vc_texts(hyps_, pc_, goal_)
+            r2 = solve.solve_text((ob_.name, text_, 30.0, float(os.environ.get("GOVC_TRETRY", "150")), False, fb_))
+            r2["retried_alone"] = True
+            j["result"] = r2
+            results[j["name"]] = r2
     by_solver = {}
     failed = []
     canary_failed = []
@@ -334,6 +354,8 @@ def run(pid, tier, repo="/repo", out_evidence=True, quiet=False):
             "vacuity_checks": sum(1 for j in jobs if j.get("kind") in ("vacuity", "cover")),
             "integers": "exact-width bit-vectors (wrap-around modelled, nothing treated as mathematical)",
             "cross_checked": cross,
+            "slowest_obligations": sorted(({"obligation": j["name"], "ms": (j.get("result") or {}).get("ms", 0), "solver": (j.get("result") or {}).get("solver")}
+                                           for j in jobs if j.get("result")), key=lambda x: -x["ms"])[:8],
         },
         "assumptions": sorted(meta["assumptions"]) + props.get("assumptions", []) + ["not carried: " + x for x in props.get("not_carried", [])],
         "wall_s": round(wall, 2),
